@@ -13,7 +13,7 @@ enum OpCode : uint16_t {
   // element -> ...
   OP_INVERSE = 0, OP_LOG, OP_COMPOSE, OP_BETWEEN, OP_RPLUS, OP_LPLUS, OP_PLUS,
   OP_RMINUS, OP_LMINUS, OP_MINUS, OP_ACT, OP_ADJ, OP_MUL, OP_ADD, OP_SUB,
-  OP_ISAPPROX, OP_EQ, OP_TRANSFORM, OP_ROTATION, OP_CASTRT, OP_COEFFS, OP_LIFT,
+  OP_ISAPPROX, OP_EQ, OP_TRANSFORM, OP_ROTATION, OP_CASTRT, OP_COEFFS, OP_LIFT, OP_DATAPTR,
   // tangent -> ...
   OP_EXP = 30, OP_HAT, OP_RJAC, OP_LJAC, OP_RJACINV, OP_LJACINV, OP_SMALLADJ,
   OP_INNER, OP_WNORM, OP_SQWNORM, OP_BRACKET, OP_TPLUS, OP_TMINUS,
